@@ -134,6 +134,8 @@ struct DeOpts {
 	ignore: Vec<Vec<usize>>,
 	duration_mode: &'static str,
 	enum_mode: &'static str,
+	hints: &'static str,
+	shape: Option<J>,
 }
 
 fn de_opts(cmd: &J) -> DeOpts {
@@ -163,6 +165,12 @@ fn de_opts(cmd: &J) -> DeOpts {
 			Some("u64") => "u64",
 			_ => "str",
 		},
+		hints: match cmd.get("hints").and_then(|m| m.as_str()) {
+			Some("alt") => "alt",
+			Some("any") => "any",
+			_ => "default",
+		},
+		shape: cmd.get("shape").cloned(),
 	}
 }
 
@@ -183,6 +191,8 @@ fn de_bytes(schema: &'static Built, bytes: &[u8], cmd: &J) -> Result<J, String> 
 	ctx.ignore = opts.ignore.clone();
 	ctx.duration_mode = opts.duration_mode;
 	ctx.enum_mode = opts.enum_mode;
+	ctx.hints = opts.hints;
+	ctx.shape = opts.shape.clone();
 	match kind {
 		"slice" => {
 			ctx.input = (bytes.as_ptr() as usize, bytes.as_ptr() as usize + bytes.len());
